@@ -296,7 +296,7 @@ USE = [
     V("use mod2, only: a1, b1 => c1", one=True),
     V("use, intrinsic :: iso_c_binding"),
     V("use mod3, r1 => r2", one=True),
-    V("use mod4, only:"),
+    V("use mod4, only:", one=True),
     V("use mod5, only: operator(.myop.), assignment(=)"),
     V("use :: mod6"),
     V("use, non_intrinsic :: mod7, only: q1"),
@@ -420,6 +420,27 @@ UNIT_WORD = {"prog": "program", "sub": "subroutine", "fun": "function", "mod": "
 
 F2008_INTRINSIC_NAMES = None  # filled lazily from the tree under test where needed (C17)
 
+# ------------------------------------------------------------------------- extended catalogue
+# catalogue/extended.json: statements written rule class by rule class (every optional part and
+# alternative of the rules of Fortran2003.py sections 3-12 and of Fortran2008/), each validated
+# with tools/try_variants.py before it was added.  They are appended to the lists above (ids stay
+# append-only: the file is never reordered).  CORE[kind] = number of hand-written variants; the
+# quick tier takes the extended variants i with (i + phase) % stride = 0 (see gen_tla).
+CORE = {"s": len(SIMPLE), "decl": len(DECL), "use": len(USE), "format": len(FORMAT), "comp": len(COMP),
+        "tbind": len(TBIND), "enumr": len(ENUMR)}
+
+
+def _load_extended():
+    import json as _json, os as _os
+    path = _os.path.join(_os.path.dirname(_os.path.dirname(_os.path.abspath(__file__))), "catalogue", "extended.json")
+    tabs = {"s": SIMPLE, "decl": DECL, "use": USE, "format": FORMAT, "comp": COMP, "tbind": TBIND, "enumr": ENUMR}
+    for e in _json.load(open(path)):
+        flags = {k: v for k, v in e.items() if k not in ("kind", "text", "slice")}
+        tabs[e["kind"]].append(V(e["text"], **flags))
+
+
+_load_extended()
+
 
 def table(kind):
     return {"s": SIMPLE, "decl": DECL, "use": USE, "implnone": IMPLICIT, "format": FORMAT, "comp": COMP,
@@ -434,39 +455,56 @@ def tla_set(xs):
     return "{" + ", ".join(str(x) for x in xs) + "}"
 
 
+def tla_split(tab, xs):
+    """Core ids as a literal set, extended ids through the tier's stride filter."""
+    n = CORE.get(next((k for k, t in (("s", SIMPLE), ("decl", DECL), ("use", USE), ("format", FORMAT), ("comp", COMP),
+                                      ("tbind", TBIND), ("enumr", ENUMR)) if t is tab), None), 10 ** 9)
+    core = [x for x in xs if x <= n]
+    ext = [x for x in xs if x > n]
+    if not ext:
+        return tla_set(core)
+    return tla_set(core) + " \\cup Ext(" + tla_set(ext) + ")"
+
+
 def gen_tla(path):
     """Write specs/Catalogue_gen.tla: the variant id sets the grammar's guards need."""
     L = []
     A = L.append
     A("--------------------------- MODULE Catalogue_gen ---------------------------")
     A("(* GENERATED by mbt/catalogue.py from the statement catalogue - do not edit. *)")
-    A("SimpleAll == " + tla_set(ids(SIMPLE)))
+    A("(* Extended variants (catalogue/extended.json) are taken with a stride in the quick tier: *)")
+    A("(* environment VERIF_CAT_STRIDE / VERIF_CAT_PHASE, set by mbt/tlc.py (1 / 0 = all of them). *)")
+    A("EXTENDS Naturals, IOUtils")
+    A("Stride == atoi(IOEnv.VERIF_CAT_STRIDE)")
+    A("Phase == atoi(IOEnv.VERIF_CAT_PHASE)")
+    A("Ext(S) == IF Stride = 1 THEN S ELSE {i \\in S : (i + Phase) % Stride = 0}")
+    A("SimpleAll == " + tla_split(SIMPLE, ids(SIMPLE)))
     A("Simple08 == " + tla_set(ids(SIMPLE, lambda v: v["std"] == 8)))
     A("SimpleNeedsDo == " + tla_set(ids(SIMPLE, lambda v: v["req"] == "do")))
     A("SimpleNeedsProc == " + tla_set(ids(SIMPLE, lambda v: v["req"] == "proc")))
     A("SimpleWhereOK == " + tla_set(ids(SIMPLE, lambda v: v["where"])))
     A("SimpleForallOK == " + tla_set(ids(SIMPLE, lambda v: v["forall"])))
-    A("SimpleOne == " + tla_set(ids(SIMPLE, lambda v: v["one"])))
-    A("DeclAll == " + tla_set(ids(DECL)))
+    A("SimpleOne == " + tla_split(SIMPLE, ids(SIMPLE, lambda v: v["one"])))
+    A("DeclAll == " + tla_split(DECL, ids(DECL)))
     A("Decl08 == " + tla_set(ids(DECL, lambda v: v["std"] == 8)))
     A("DeclNeedsProc == " + tla_set(ids(DECL, lambda v: v["req"] == "proc")))
     A("DeclModOK == " + tla_set(ids(DECL, lambda v: v["mod"])))
     A("DeclProcOK == " + tla_set(ids(DECL, lambda v: v["proc"])))
     A("DeclBlockOK == " + tla_set(ids(DECL, lambda v: v["blk"])))
     A("DeclBdataOK == " + tla_set(ids(DECL, lambda v: v["bdata"])))
-    A("DeclOne == " + tla_set(ids(DECL, lambda v: v["one"])))
-    A("UseAll == " + tla_set(ids(USE)))
-    A("UseOne == " + tla_set(ids(USE, lambda v: v["one"])))
-    A("FormatOne == " + tla_set(ids(FORMAT, lambda v: v["one"])))
-    A("FormatAll == " + tla_set(ids(FORMAT)))
+    A("DeclOne == " + tla_split(DECL, ids(DECL, lambda v: v["one"])))
+    A("UseAll == " + tla_split(USE, ids(USE)))
+    A("UseOne == " + tla_split(USE, ids(USE, lambda v: v["one"])))
+    A("FormatOne == " + tla_split(FORMAT, ids(FORMAT, lambda v: v["one"])))
+    A("FormatAll == " + tla_split(FORMAT, ids(FORMAT)))
     A("Format08 == " + tla_set(ids(FORMAT, lambda v: v["std"] == 8)))
-    A("CompAll == " + tla_set(ids(COMP)))
+    A("CompAll == " + tla_split(COMP, ids(COMP)))
     A("Comp08 == " + tla_set(ids(COMP, lambda v: v["std"] == 8)))
     A("CompHeadOnly == " + tla_set(ids(COMP, lambda v: v["head"])))
     A("TbindHeadOnly == " + tla_set(ids(TBIND, lambda v: v["head"])))
-    A("TbindAll == " + tla_set(ids(TBIND)))
+    A("TbindAll == " + tla_split(TBIND, ids(TBIND)))
     A("Tbind08 == " + tla_set(ids(TBIND, lambda v: v["std"] == 8)))
-    A("EnumrAll == " + tla_set(ids(ENUMR)))
+    A("EnumrAll == " + tla_split(ENUMR, ids(ENUMR)))
     A("ModprocAll == " + tla_set(ids(MODPROC)))
     A("Modproc08 == " + tla_set(ids(MODPROC, lambda v: v["std"] == 8)))
     for k in sorted(OPEN):
